@@ -92,7 +92,7 @@ func (c *Conn) Read(ctx context.Context, buf []byte) (int, error) {
 
 	ch := make(chan ioret, 1)
 	go func() {
-		n, err := c.conn.Read(buf)
+		n, err := c.reader.Read(buf)
 		ch <- ioret{n, err}
 	}()
 
